@@ -138,7 +138,7 @@ pub struct KnownFinding {
     pub property: String,
     pub id: String,
     pub signature: String,
-    pub replay: Option<String>,
+    pub replays: Vec<String>,
     pub text: String,
 }
 
@@ -163,7 +163,7 @@ pub fn known_findings() -> Vec<KnownFinding> {
         let mut property = String::new();
         let mut id = String::new();
         let mut signature = String::new();
-        let mut replay = None;
+        let mut replays = vec![];
         let mut text = vec![];
         for tok in rest.split_whitespace() {
             if let Some(v) = tok.strip_prefix("property=") {
@@ -173,7 +173,7 @@ pub fn known_findings() -> Vec<KnownFinding> {
             } else if let Some(v) = tok.strip_prefix("signature=") {
                 signature = v.to_string();
             } else if let Some(v) = tok.strip_prefix("replay=") {
-                replay = Some(v.to_string());
+                replays.push(v.to_string());
             } else {
                 text.push(tok);
             }
@@ -183,7 +183,7 @@ pub fn known_findings() -> Vec<KnownFinding> {
             property,
             id,
             signature,
-            replay,
+            replays,
             text: text.join(" "),
         });
     }
@@ -228,7 +228,7 @@ pub fn run_parent(
     // 1. replay tier: committed regression cases of this property
     let rdir = root.join("regress").join(id);
     let known = open_findings_for(id);
-    let known_replays: BTreeSet<String> = known.iter().filter_map(|k| k.replay.clone()).collect();
+    let known_replays: BTreeSet<String> = known.iter().flat_map(|k| k.replays.clone()).collect();
     let mut regress_failures: Vec<(String, String)> = vec![];
     let mut regress_run = 0u64;
     if let Ok(rd) = std::fs::read_dir(&rdir) {
